@@ -643,6 +643,25 @@ func VerifyFunction(L *Loaded, name string, ct *Contract, prop string) (res *Fun
 			}
 		}
 	}
+	// vacuity of call-site clauses: a clause that applied to no call at all
+	// constrains nothing (the callee was renamed, or the call disappeared)
+	if ct != nil {
+		var keys []string
+		for k := range ct.CallSites {
+			keys = append(keys, k)
+		}
+		sort.Strings(keys)
+		for _, k := range keys {
+			for _, cl := range ct.CallSites[k] {
+				if !vc.firedCS[cl] {
+					vc.curClauseProps = cl.Props
+					o := vc.Oblige("callsite", fmt.Sprintf("%s.%s.never-applies", k, cl.Label), fn.Pos(), vc.entry, False, "call-site clause applies to no call of "+k+" in this function: "+cl.Src)
+					vc.curClauseProps = nil
+					_ = o
+				}
+			}
+		}
+	}
 	res.Obligations = vc.obls
 	res.Inlined = sortedKeys(vc.inlined)
 	res.Callees = sortedKeys(vc.callees)
